@@ -139,4 +139,60 @@ example : fillMonth (10 : ℚ) [4, 7, 5] = [4, 6, 0] := by decide +kernel
 example : fillNeg ([-3, 1, -1, 5] : List ℚ) = [0, 1, 0, 1] := by decide +kernel
 example : redistribute ([3, 1, 0] : List ℚ) [1, 1, 4] = some [3, 1, 2] := by decide +kernel
 
+/-! ## the third round's "potential increase" and the whole final adjustment
+
+`Handoff.thirdRoundIncrease u const m1 m3` is the rule of thumb of `compute_parameters_third_round`:
+per month half of the extra meat of round 3 over round 1 (billion kcals), converted to kcals per
+person per day (`u`), minus `const` (`Handoff.nzlConst`: 100 for New Zealand, 20 otherwise),
+negatives clipped to zero, converted back.  `Handoff.bumpAll` is `increase_biofuels_then_feed` on
+the monthly arrays. -/
+
+theorem increase_length (u c : K) (m1 m3 : List K) :
+    (thirdRoundIncrease u c m1 m3).length = min m1.length m3.length :=
+  Proofs.increase_length u c m1 m3
+
+theorem increase_nonneg (u c : K) (m1 m3 : List K) (hu : 0 < u) :
+    ∀ e ∈ thirdRoundIncrease u c m1 m3, 0 ≤ e :=
+  Proofs.increase_nonneg u c m1 m3 hu
+
+/-- never more than half of the extra meat (and nothing where there is no extra meat) -/
+theorem increase_le_half_extra (u c : K) (m1 m3 : List K) (hu : 0 < u) (hc : 0 ≤ c) (k : Nat) :
+    (thirdRoundIncrease u c m1 m3).getD k 0 ≤ max 0 ((m3.getD k 0 - m1.getD k 0) / 2) :=
+  Proofs.increase_le_half_extra u c m1 m3 hu hc k
+
+/-- clipped to zero exactly where half of the extra meat is worth at most `const` kcals per person
+    per day -/
+theorem increase_zero_iff (u c : K) (m1 m3 : List K) (hu : 0 < u) (k : Nat)
+    (hk : k < (thirdRoundIncrease u c m1 m3).length) :
+    (thirdRoundIncrease u c m1 m3).getD k 0 = 0 ↔ (m3.getD k 0 - m1.getD k 0) / 2 * u ≤ c :=
+  Proofs.increase_zero_iff u c m1 m3 hu k hk
+
+/-- the closed form of one month -/
+theorem increase1_eq (u c a b : K) (hu : 0 < u) :
+    increase1 u c a b = max 0 (u * ((b - a) / 2) - c) / u :=
+  Proofs.increase1_eq u c a b hu
+
+/-- the whole pipeline of the final adjustment, for all list lengths and all inputs: no month's
+    biofuel or feed is lowered; biofuel ends at most at the larger of its input and its demand,
+    feed at most `1e-9` above the larger of its input and its demand -/
+theorem final_charge_never_lowers_and_within_demand (u c : K) (m1 m3 b f mb mf av : List K) (k : Nat)
+    (hk : k < (bumpAll b f (thirdRoundIncrease u c m1 m3) mb mf av).length) :
+    b.getD k 0 ≤ ((bumpAll b f (thirdRoundIncrease u c m1 m3) mb mf av).getD k (0, 0)).1 ∧
+    f.getD k 0 ≤ ((bumpAll b f (thirdRoundIncrease u c m1 m3) mb mf av).getD k (0, 0)).2 ∧
+    ((bumpAll b f (thirdRoundIncrease u c m1 m3) mb mf av).getD k (0, 0)).1
+      ≤ max (b.getD k 0) (mb.getD k 0) ∧
+    ((bumpAll b f (thirdRoundIncrease u c m1 m3) mb mf av).getD k (0, 0)).2
+      ≤ max (f.getD k 0) (mf.getD k 0) + 1e-9 :=
+  Proofs.final_charge_never_lowers_and_within_demand u c m1 m3 b f mb mf av k hk
+
+/-- non-vacuity: a month where the increase is positive (extra meat 100 → 40) and one where it is
+    clipped (extra meat 10 → 0), and the pipeline on them -/
+example : thirdRoundIncrease (2 : ℚ) 20 [0, 0] [100, 10] = [40, 0] ∧
+    (bumpAll [1, 1] [5, 5] (thirdRoundIncrease (2 : ℚ) 20 [0, 0] [100, 10]) [3, 3] [6, 6] [100, 100]).length = 2 ∧
+    (nzlConst "NZL" : ℚ) = 100 ∧ (nzlConst "ARG" : ℚ) = 20 := by
+  refine ⟨by decide +kernel, by decide +kernel, ?_, ?_⟩
+  · norm_num [nzlConst]
+  · have h : ¬ ("ARG" = "NZL") := by decide
+    norm_num [nzlConst, h]
+
 end Allfed.C18
